@@ -3782,6 +3782,7 @@ validate_trait_tuple_check(
                 else if (aitem != bitem) {
                     tuple = PyTuple_New(n);
                     if (tuple == NULL) {
+                        Py_DECREF(aitem);
                         return NULL;
                     }
                     for (Py_ssize_t j = 0; j < i; j++) {
